@@ -26,7 +26,7 @@ def make_container(fam, kind, impl, sizes=None, via_subclass=False):
     return cls()
 
 
-def structural_checks(t, is_mapping, use_check_module=True):
+def structural_checks(t, is_mapping, use_check_module=True, sizes=True):
     """-> list of (checker, message).  Empty when the tree is sound."""
     errs = []
     try:
@@ -44,7 +44,7 @@ def structural_checks(t, is_mapping, use_check_module=True):
             errs.append(('check-raised', '%s: %s' % (type(e).__name__,
                                                      str(e)[:200])))
     try:
-        w = walker.walk(t, is_mapping)
+        w = walker.walk(t, is_mapping, check_sizes=sizes)
         for m in w.errors[:3]:
             errs.append(('walker', m))
     except Exception as e:
